@@ -42,6 +42,16 @@ type hint subscripted by one or more :mod:`beartype.vale` validators.
 '''
 
 
+CODE_PEP593_VALIDATOR_PITH = '''
+{indent_curr}    # Localize this pith to this local variable.
+{indent_curr}    ({pith_curr_assign_expr}) is {pith_curr_var_name} and'''
+'''
+:pep:`593`-compliant code snippet localizing the current pith to a local variable
+*before* type-checking this pith against the beartype validators annotating a
+type metahint whose metahint is ignorable.
+'''
+
+
 CODE_PEP593_VALIDATOR_IS = '''
 {indent_curr}    # True only if this pith satisfies this caller-defined
 {indent_curr}    # validator of this annotated metahint.
@@ -66,6 +76,8 @@ means of accomplishing this, this approach is the optimally efficient.
 # This is an absurd micro-optimization. *fight me, github developer community*
 CODE_PEP593_VALIDATOR_IS_format: CallableStrFormat = (
     CODE_PEP593_VALIDATOR_IS.format)
+CODE_PEP593_VALIDATOR_PITH_format: CallableStrFormat = (
+    CODE_PEP593_VALIDATOR_PITH.format)
 CODE_PEP593_VALIDATOR_METAHINT_format: CallableStrFormat = (
     CODE_PEP593_VALIDATOR_METAHINT.format)
 CODE_PEP593_VALIDATOR_SUFFIX_format: CallableStrFormat = (
